@@ -7,7 +7,7 @@
 (*   lint   one program: the linter's full report                          *)
 (*   visit  one program: the runner's callback log and fold term           *)
 (***************************************************************************)
-EXTENDS Interp, Json, SequencesExt
+EXTENDS Interp, Json, SequencesExt, IOUtils
 
 LI == INSTANCE Lint
 VS == INSTANCE Visitor
@@ -107,8 +107,13 @@ VisitProgs(z) ==
 NS == 16
 Sh(St, n) == LET q == SetToSeq(St) IN { q[i] : i \in { j \in 1..Len(q) : j % NS = n } }
 
+(* the corpus kinds: the trees of the program corpus as the real parser builds them (vh record corpus-trees), from the file named  *)
+(* by the environment variable CORPUS; Lint.tla and Visitor.tla say what the linter and a visitor must make of them                *)
+CorpusRec == IF Kind \in {"corpuslint", "corpusvisit"} THEN ndJsonDeserialize(IOEnv.CORPUS) ELSE <<>>
 CasesOf(n) ==
-  CASE Kind = "fold"  -> { [k |-> "fold", e |-> e] : e \in Sh(Exprs(0), n) }
+  CASE Kind = "corpuslint"  -> { [k |-> "lint", prog |-> CorpusRec[i].prog] : i \in { j \in 1..Len(CorpusRec) : j % NS = n } }
+    [] Kind = "corpusvisit" -> { [k |-> "visit", prog |-> CorpusRec[i].prog] : i \in { j \in 1..Len(CorpusRec) : j % NS = n } }
+    [] Kind = "fold"  -> { [k |-> "fold", e |-> e] : e \in Sh(Exprs(0), n) }
     [] Kind = "lint"  -> { [k |-> "lint", prog |-> Number(<<p>>)] : p \in Sh(LintProgs(0), n) }
     [] Kind = "visit" -> { [k |-> "visit", prog |-> Number(<<p>>)] : p \in Sh(VisitProgs(0), n) }
 
